@@ -122,10 +122,10 @@ func HIdmPair(a, b int) {
 
 // ViewOps are done by each goroutine on its own Sub view of one MemFS, after
 // setting its own user, umask and working directory on that view.
-var ViewOps = []string{"Create", "Mkdir", "Stat", "ReadDir", "Chmod", "RelativeStat"}
+var ViewOps = []string{"Create", "Mkdir", "Stat", "ReadDir", "Chmod", "RelativeStat", "CreateInOwnDir"}
 
 // NumViewOps is len(ViewOps).
-const NumViewOps = 6
+const NumViewOps = 7
 
 // HViews: per-goroutine Sub views with different users.
 func HViews(a, b int) {
@@ -133,6 +133,11 @@ func HViews(a, b int) {
 	hx.Must(base.MkdirAll("/w/a", 0o777))
 	hx.Must(base.Chmod("/w", 0o777))
 	hx.Must(base.WriteFile("/w/b", []byte("y"), 0o666))
+	// one directory per goroutine: creations there share no directory lock
+	hx.Must(base.Mkdir("/w/dn1", 0o777))
+	hx.Must(base.Mkdir("/w/dn2", 0o777))
+	hx.Must(base.Chmod("/w/dn1", 0o777))
+	hx.Must(base.Chmod("/w/dn2", 0o777))
 	mk := func() avfs.VFS {
 		s, err := base.Sub("/")
 		hx.Must(err)
@@ -160,6 +165,10 @@ func HViews(a, b int) {
 			_ = v.Chmod("/w/b", 0o600)
 		case "RelativeStat":
 			_, _ = v.Stat("b")
+		case "CreateInOwnDir":
+			if f, err := v.Create("/w/d" + name + "/f"); err == nil {
+				_ = f.Close()
+			}
 		}
 		_ = v.User()
 		_ = v.UMask()
